@@ -421,6 +421,8 @@ func (h *histState) step(op string) string {
 	case "autoalpha":
 		h.sb.AutoAlphabet()
 		return "ok"
+	case "setalpha":
+		return errs(h.sb.SetAlphabet(atoi(f[1])))
 	case "unalign":
 		h.sb = h.sb.Unalign()
 		h.al = nil
